@@ -15,10 +15,12 @@ PROPS['C19'] = dict(
          'get/set at random offsets of an exact-size heap block) plus enumeration of the finite sub-domains listed under '
          'enumerated_domains; non-trivial = sqrt argument >= 4, or gcd pair both non-zero and different, or rev/getset word not 0/~0; '
          'distinct = hash of the decoded arguments (tape cases) + enumerated inputs (distinct by construction)',
-    units=lambda tier, seed: [Unit('intmath', 'exec/C19.cc', ['a.c', 'math.c'], enum=True, tape_len=96)],
+    units=lambda tier, seed: [Unit('intmath', 'exec/C19.cc', ['a.c', 'math.c'], enum=True, tape_len=96),
+                              Unit('intmath-nobitscan', 'exec/C19.cc', ['a.c', 'wrap:wrap_math_nobsr.c'], enum=True, tape_len=96,
+                                   config='math.c compiled as by a compiler without a bit-scan builtin: digit-by-digit bodies of a_u32_sqrt / a_u64_sqrt')],
     plan={
-        'quick': dict(rc_procs=6, rc_cases=30000, fuzz_procs=2, fuzz_secs=15, enum_shards=8, enum_tier=0),
-        'thorough': dict(rc_procs=8, rc_cases=400000, fuzz_procs=4, fuzz_secs=90, enum_shards=16, enum_tier=1),
+        'quick': dict(rc_procs=4, rc_cases=30000, fuzz_procs=2, fuzz_secs=15, enum_shards=4, enum_tier=0),
+        'thorough': dict(rc_procs=6, rc_cases=400000, fuzz_procs=3, fuzz_secs=90, enum_shards=8, enum_tier=1),
     },
     exhaustive_when_enum=False, has_enum=True,
     assumptions=COMMON_ASSUME + ['oracle: unsigned __int128 arithmetic, binary gcd, bit loop; independent of liba'],
